@@ -185,7 +185,8 @@ def auxiliary_functions_of_faulted_requests(sx, proto):
 
 # ---------------------------------------------------------------- hostile documents per protocol (beyond the generic kinds)
 from spyne import ComplexModel
-from spyne.model.primitive import Duration, Decimal as _Dec
+from spyne.model.primitive import Duration, DateTime, Decimal as _Dec
+import pytz
 from spyne.model.binary import ByteArray
 from spyne.model.complex import Array
 from spyne.protocol.yaml import YamlDocument
@@ -201,6 +202,8 @@ class Item(ComplexModel):
     amount = _Dec
     tags = Array(Unicode)
     many = Integer(max_occurs='unbounded')
+    when = DateTime(as_timezone=pytz.utc)
+    stamp = DateTime(dt_format='%Y/%m/%d %H:%M')
 
 
 class HostileSvc(Service):
@@ -237,6 +240,12 @@ HOSTILE = {     # (input protocol, validator) -> {name: (body, wsgi env)}
         'text and tail around members': (b'<take xmlns="tns">x<item>y<name>a</name>z</item>w</take>', {}),
         'nested same element': (b'<take xmlns="tns"><item><item><name>a</name></item></item></take>', {}),
         'bytes invalid for the declared encoding': (b'<?xml version="1.0" encoding="ascii"?><take xmlns="tns"><item><name>\xe9</name></item></take>', {}),
+        'charset with a NUL': (b'<take xmlns="tns"><item><name>a</name></item></take>', {'CONTENT_TYPE': 'text/xml; charset=a\x00b'}),
+        'charset that is not a text encoding': (b'<take xmlns="tns"><item><name>a</name></item></take>', {'CONTENT_TYPE': 'text/xml; charset=hex'}),
+        'nil root': (b'<take xmlns="tns" xmlns:xsi="http://www.w3.org/2001/XMLSchema-instance" xsi:nil="true"/>', {}),
+        'non-numeric Content-Length': (b'<take xmlns="tns"><item><name>a</name></item></take>', {'CONTENT_LENGTH': 'abc'}),
+        'zone conversion out of range': (b'<take xmlns="tns"><item><when>0001-01-01T00:00:00+14:00</when></item></take>', {}),
+        'text that does not fit the declared format': (b'<take xmlns="tns"><item><stamp>yesterday</stamp></item></take>', {}),
     },
     'soap11': {
         'empty Body': (_soap('<s:Body/>'), {}),
@@ -255,6 +264,11 @@ HOSTILE = {     # (input protocol, validator) -> {name: (body, wsgi env)}
         'empty Content-Type header': (_soapb('<take xmlns="tns"><item><name>a</name></item></take>'), {'CONTENT_TYPE': ''}),
         'GET with a body': (_soapb('<take xmlns="tns"><item><name>a</name></item></take>'), {'REQUEST_METHOD': 'GET'}),
         'entity reference as child of an object': (b'<!DOCTYPE x [<!ENTITY x "y">]>' + _soapb('<take xmlns="tns"><item>&x;</item></take>'), {}),
+        'entity reference first in the Body': (b'<!DOCTYPE x [<!ENTITY x "y">]>' + _soapb('&x;<take xmlns="tns"><item><name>a</name></item></take>'), {}),
+        'dangling href beside an id': (_soapb('<take xmlns="tns"><item id="i1" href="#zz"/></take>'), {}),
+        'href into its own ancestor': (_soapb('<take xmlns="tns"><item href="#i1"/><item id="i1"><name href="#i1"/></item></take>'), {}),
+        'charset that is not a text encoding': (_soapb('<take xmlns="tns"><item><name>a</name></item></take>'), {'CONTENT_TYPE': 'text/xml; charset=rot13'}),
+        'non-numeric Content-Length': (_soapb('<take xmlns="tns"><item><name>a</name></item></take>'), {'CONTENT_LENGTH': '1e3'}),
     },
     'json': {
         'NaN for a decimal': (b'{"take": {"item": {"amount": NaN}}}', {}),
@@ -280,6 +294,9 @@ HOSTILE = {     # (input protocol, validator) -> {name: (body, wsgi env)}
         'deep nesting': (b'[' * 5000 + b']' * 5000, {}),
         'huge exponent': (b'{"take": {"item": {"many": [1e999999]}}}', {}),
         'duplicate keys': (b'{"take": {"item": {"name": "a", "name": "b"}}, "take": 5}', {}),
+        'non-numeric Content-Length': (b'{"take": {"item": {"name": "a"}}}', {'CONTENT_LENGTH': 'abc'}),
+        'charset that is not a text encoding': (b'{"take": {"item": {"name": "a"}}}', {'CONTENT_TYPE': 'application/json; charset=zlib'}),
+        'text that does not fit the declared format': (b'{"take": {"item": {"stamp": "yesterday"}}}', {}),
     },
     'yaml': {
         'scanner error': (b'take: {item: [}', {}),
@@ -310,6 +327,8 @@ try:
         'text that is not UTF-8': (_mp.packb({'take': {'item': {'name': b'\xff\xfe'}}}), {}),
         'extension type': (_mp.packb({'take': {'item': {'name': _mp.ExtType(5, b'x')}}}), {}),
         'timestamp extension': (b'\x81\xa4take\x81\xa4item\x81\xa4name\xd6\xff\x00\x00\x00\x01', {}),
+        'trailing bytes after the document': (_mp.packb({'take': {'item': {'name': 'a'}}}) + b'\x01\x02', {}),
+        'invalid UTF-8 in a str': (b'\x81\xa4take\x81\xa4item\x81\xa4name\xa2\xff\xfe', {}),
     }
 except ImportError:
     pass
@@ -332,7 +351,7 @@ def _hostile_app(proto, validator):
                     'spyne.protocol.soap.soap11.Soap11.decompose_incoming_envelope',
                     'spyne.protocol.yaml.YamlDocument.create_in_document',
                     'spyne.protocol.dictdoc.hier.HierDictDocument._doc_to_object'],
-         bounds={'requests': 'the concrete protocol-specific hostile documents listed in HOSTILE (12 XML, 16 SOAP, 23 JSON, 14 YAML, 9 MessagePack), '
+         bounds={'requests': 'the concrete protocol-specific hostile documents listed in HOSTILE (18 XML, 21 SOAP, 26 JSON, 14 YAML, 11 MessagePack), '
                              'each through WsgiApplication, validators soft / None (/ lxml for XML and SOAP), chunked or not'})
 def hostile_documents(sx, p):
     """a structurally hostile document is answered (normally or with a Client fault) - nothing escapes the WSGI callable,
